@@ -8,6 +8,7 @@ from Geometry3D import intersection
 
 from .. import core, lib, exact as X, alphabet as A
 from ..core import Viol, Family
+from ..icheck import reused
 
 LEVEL = 'exploration'
 TECHNIQUE = 'bounded-exhaustive enumeration of all lattice scene pairs x poses on the real code vs exact rational closed-form model'
@@ -53,7 +54,8 @@ def eval_pair(fam, a, b, forms=('fn', 'method')):
         if form == 'method' and a[0] == 'Point':
             continue
         if form == 'fn':
-            la, lb = lib.to_lib(a), lib.to_lib(b)
+            # the first operand object is kept across the consecutive scenes that share it
+            la, lb = (reused(a) if a[0] != 'Point' else lib.to_lib(a)), lib.to_lib(b)
         if form == 'fn':
             r = lib.call(intersection, la, lb)
         else:
